@@ -24,7 +24,7 @@ def get_seams(env):
     return seams
 
 
-def run_scheduled(env, progs, schedule, open_clients, do_op, pid, max_steps=5000, warm=None):
+def run_scheduled(env, progs, schedule, open_clients, do_op, pid, max_steps=5000, warm=None, inspect=None):
     """open_clients(path) -> (clients, closeables); client i runs progs[i] through do_op(client, op).
     Returns (calls, sched)."""
     seams = get_seams(env)
@@ -62,6 +62,8 @@ def run_scheduled(env, progs, schedule, open_clients, do_op, pid, max_steps=5000
         finally:
             seams.ctl = Controller()
             seams.clock.on_sleep = None
+        if inspect is not None:
+            inspect(path, clients)
         return calls, sched
     finally:
         for c in closeables:
